@@ -21,12 +21,12 @@ def parseEl (s : String) : Option Element :=
     let p ← pt.toInt?
     let t ← tl.toInt?
     let n ← nc.toInt?
-    some ⟨⟨nm, r, if p < 0 then none else some p.toNat, t, none⟩, n⟩
+    some ⟨⟨nm, r, if p < 0 then none else some p.toNat, t, none, none⟩, n⟩
   | [nm, rep, pt, tl] => do
     let r ← repOf (← rep.toInt?)
     let p ← pt.toInt?
     let t ← tl.toInt?
-    some ⟨⟨nm, r, if p < 0 then none else some p.toNat, t, none⟩, 0⟩
+    some ⟨⟨nm, r, if p < 0 then none else some p.toNat, t, none, none⟩, 0⟩
   | _ => none
 
 def parseLeaf (s : String) : Option Leaf :=
